@@ -33,7 +33,7 @@ Record thread_out := {
 Record c14_out := {
   o_threads : list thread_out;
   o_requesting : Z;
-  o_exc : option (Z * Z * list Z);      (* crash address, family, payload *)
+  o_exc : option (Z * Z * list Z * option (list Z));   (* crash address, family, payload, predicted string *)
   o_pid : option Z; o_ctime : option Z; o_time : Z;
   o_modules : list (Z * Z);
   o_unloaded : list (Z * Z * Z) }.
@@ -64,7 +64,7 @@ Definition run_case (p : profile) (d : dump) (tbl : list (Z * Z)) : c14_out :=
      o_requesting := match requesting_thread d with Some i => Z.of_nat i | None => -1 end;
      o_exc := match d_exc d with
               | Some e => let r := crash_reason (lk_of tbl) o c e in
-                          Some (crash_address o c e, family_index (fst r), snd r)
+                          Some (crash_address o c e, family_index (fst r), snd r, reason_string r)
               | None => None end;
      o_pid := process_id d; o_ctime := process_create_time d; o_time := d_time d;
      o_modules := read_modules (d_modules d); o_unloaded := read_unloaded (d_unloaded d) |}.
